@@ -333,6 +333,9 @@ class Elem:
                 return sp.pi
             if d in ("np.newaxis",):
                 return None
+            v = self.shell_property(e)
+            if v is not None:
+                return v[0]
             self.err(f"attribute `{d}` has no symbolic value", e)
         if isinstance(e, ast.Tuple):
             return tuple(self.expr(x) for x in e.elts)
@@ -484,6 +487,43 @@ class Elem:
                 self.log.extend(sub.log)
                 return sub.returns[0][1]
         self.err(f"call `{d}` not modelled", e)
+
+
+def _shell_property(self, e):
+    """`shell.<name>` where <name> is a derived property of GeneralizedContractionShell (not one of the stored attributes the caller gave
+    symbols for): the property body is interpreted on the receiver's attribute symbols.  -> (value,) or None"""
+    repo = getattr(self, "repo", None)
+    if repo is None or not isinstance(e.value, ast.Name) or getattr(self, "depth", 0) >= 3:
+        return None
+    recv = e.value.id
+    mine = {k[len(recv) + 1:]: v for k, v in self.attr_symbols.items() if k.startswith(recv + ".")}
+    if not mine:
+        return None
+    try:
+        g = repo.func("gbasis.contractions.GeneralizedContractionShell." + e.attr)
+    except Exception:
+        return None
+    if getattr(g, "kind", None) != "property":
+        return None
+    sub = type(self).__new__(type(self))
+    sub.__dict__.update({k: v for k, v in self.__dict__.items() if k not in ("env", "returns", "log", "func", "attr_symbols")})
+    sub.func = g
+    sub.env = {}
+    sub.attr_symbols = {}
+    for k, v in mine.items():
+        sub.attr_symbols["self." + k] = v
+        sub.attr_symbols["self._" + k] = v
+    sub.returns = []
+    sub.log = []
+    sub.depth = getattr(self, "depth", 0) + 1
+    sub.run()
+    if len(sub.returns) != 1:
+        self.err(f"the property {e.attr} does not have exactly one return", e)
+    self.log.extend(sub.log)
+    return (sub.returns[0][1],)
+
+
+Elem.shell_property = _shell_property
 
 
 def rebound_inputs(func, names, rule="FWD"):
